@@ -180,7 +180,7 @@ func doDeny(sub string, c denyCase, class string) string {
 	}
 	rec.Class(class)
 	rec.NT("deny\x00" + c.Kind + "\x00" + c.Option + "\x00" + c.Src + "\x00" + univ.Show(c.Input.X))
-	rec.Sample(map[string]any{"sub": sub, "kind": c.Kind, "option": c.Option, "src": c.Src, "alt": c.Alt, "input": univ.Show(c.Input.X)})
+	sample("deny", map[string]any{"sub": sub, "kind": c.Kind, "option": c.Option, "src": c.Src, "alt": c.Alt, "input": univ.Show(c.Input.X)})
 	return o.msg
 }
 
@@ -431,7 +431,7 @@ func runEnviron(t *testing.T) {
 		if len(ps) > 0 {
 			rec.NT("environ\x00" + strings.Join(ps, "\x01"))
 		}
-		rec.Sample(map[string]any{"sub": "environ", "pairs": ps})
+		sample("environ", map[string]any{"sub": "environ", "pairs": ps})
 		if msg := checkEnviron(c); msg != "" {
 			t.Fatalf("%s", rec.Fail("environ", c, "%s", msg))
 		}
@@ -578,7 +578,7 @@ func doVars(sub string, c varsCase) string {
 		b, _ := jsonMarshal(c)
 		rec.NT("vars\x00" + string(b))
 	}
-	rec.Sample(map[string]any{"sub": sub, "names": c.Names, "values": len(c.Values), "src": c.Src})
+	sample("vars", map[string]any{"sub": sub, "names": c.Names, "values": len(c.Values), "src": c.Src})
 	return o.msg
 }
 
@@ -1230,7 +1230,7 @@ func doInput(c inputCase) string {
 	if o.draws > 0 {
 		rec.NT("input\x00" + o.text + "\x00" + showScript(c.Script))
 	}
-	rec.Sample(map[string]any{"sub": "input", "program": o.text, "script": showScript(c.Script), "draws": o.draws})
+	sample("input", map[string]any{"sub": "input", "program": o.text, "script": showScript(c.Script), "draws": o.draws})
 	return o.msg
 }
 
